@@ -188,7 +188,97 @@ def _rename_locals(root: pathlib.Path):
         f.write_text(ast.unparse(tree) + "\n")
 
 
-GLOBAL_TRANSFORMS = {"unparse-every-module": _unparse_all, "alpha-rename-every-local": _rename_locals}
+def _suppress_to_try(root: pathlib.Path):
+    """Every `with contextlib.suppress(E…): body` becomes `try: body / except (E…): pass`."""
+    import ast
+
+    class Tr(ast.NodeTransformer):
+        def visit_With(self, node):
+            self.generic_visit(node)
+            if len(node.items)==1 and node.items[0].optional_vars is None:
+                c=node.items[0].context_expr
+                if isinstance(c, ast.Call) and ast.unparse(c.func) in ('contextlib.suppress','suppress') and not c.keywords:
+                    typ = c.args[0] if len(c.args)==1 else ast.Tuple(elts=c.args, ctx=ast.Load())
+                    return ast.Try(body=node.body, handlers=[ast.ExceptHandler(type=typ, name=None, body=[ast.Pass()])], orelse=[], finalbody=[])
+            return node
+    for f in (root/'src'/'typelib').rglob('*.py'):
+        t=Tr().visit(ast.parse(f.read_text())); ast.fix_missing_locations(t); f.write_text(ast.unparse(t)+'\n')
+def _hoist_return_args(root: pathlib.Path):
+    """`return f(a, g(x))` becomes `_h = g(x); return f(a, _h)` where evaluation order is kept."""
+    import ast
+
+    class Tr(ast.NodeTransformer):
+        def __init__(self): self.n=0
+        def _block(self, body):
+            out=[]
+            for st in body:
+                if isinstance(st, ast.Return) and isinstance(st.value, ast.Call):
+                    call=st.value
+                    new=[]
+                    for i,a in enumerate(call.args):
+                        if isinstance(a, ast.Call) and not any(isinstance(x,(ast.Starred,)) for x in call.args) :
+                            self.n+=1
+                            nm=f"_h{self.n}"
+                            # only hoist when all earlier args are simple names/constants/attrs (evaluation order)
+                            if all(isinstance(b,(ast.Name,ast.Constant,ast.Attribute)) for b in call.args[:i]) and isinstance(call.func,(ast.Name,ast.Attribute)):
+                                out.append(ast.Assign(targets=[ast.Name(id=nm,ctx=ast.Store())], value=a))
+                                call.args[i]=ast.Name(id=nm,ctx=ast.Load())
+                                break
+                out.append(st)
+            return out
+        def generic_visit(self, node):
+            super().generic_visit(node)
+            for fld in ('body','orelse','finalbody'):
+                b=getattr(node,fld,None)
+                if isinstance(b,list) and b and isinstance(b[0],ast.stmt):
+                    setattr(node,fld,self._block(b))
+            return node
+    for f in (root/'src'/'typelib').rglob('*.py'):
+        t=Tr().visit(ast.parse(f.read_text())); ast.fix_missing_locations(t); f.write_text(ast.unparse(t)+'\n')
+def _ifexp_return_to_if(root: pathlib.Path):
+    """`return a if c else b` becomes `if c: return a` / `return b`."""
+    import ast
+
+    class Tr(ast.NodeTransformer):
+        def _block(self, body):
+            out=[]
+            for st in body:
+                if isinstance(st, ast.Return) and isinstance(st.value, ast.IfExp):
+                    v=st.value
+                    out.append(ast.If(test=v.test, body=[ast.Return(value=v.body)], orelse=[]))
+                    out.append(ast.Return(value=v.orelse))
+                else: out.append(st)
+            return out
+        def generic_visit(self, node):
+            super().generic_visit(node)
+            for fld in ('body','orelse','finalbody'):
+                b=getattr(node,fld,None)
+                if isinstance(b,list) and b and isinstance(b[0],ast.stmt):
+                    setattr(node,fld,self._block(b))
+            return node
+    for f in (root/'src'/'typelib').rglob('*.py'):
+        t=Tr().visit(ast.parse(f.read_text())); ast.fix_missing_locations(t); f.write_text(ast.unparse(t)+'\n')
+def _isinstance_split(root: pathlib.Path):
+    """`isinstance(x, (A, B))` becomes `isinstance(x, A) or isinstance(x, B)` (same for issubclass)."""
+    import ast
+
+    class Tr(ast.NodeTransformer):
+        def visit_Call(self, node):
+            self.generic_visit(node)
+            if isinstance(node.func, ast.Name) and node.func.id in('isinstance','issubclass') and len(node.args)==2 and isinstance(node.args[1], ast.Tuple) and isinstance(node.args[0],(ast.Name,ast.Attribute)) and 2<=len(node.args[1].elts)<=3:
+                return ast.BoolOp(op=ast.Or(), values=[ast.Call(func=node.func,args=[node.args[0],e],keywords=[]) for e in node.args[1].elts])
+            return node
+    for f in (root/'src'/'typelib').rglob('*.py'):
+        t=Tr().visit(ast.parse(f.read_text())); ast.fix_missing_locations(t); f.write_text(ast.unparse(t)+'\n')
+
+GLOBAL_TRANSFORMS = {
+    "unparse-every-module": _unparse_all,
+    "alpha-rename-every-local": _rename_locals,
+    "suppress-to-try-except": _suppress_to_try,
+    "hoist-nested-call-out-of-return": _hoist_return_args,
+    "conditional-return-to-if": _ifexp_return_to_if,
+    "split-class-tuple-tests": _isinstance_split,
+}
 
 
 def run_global(name: str) -> dict:
